@@ -1038,6 +1038,7 @@ class Version:
 
 
 def _version_extract_cmpop(vstr2: str) -> T.Tuple[T.Callable[[T.Any, T.Any], bool], str]:
+    vstr2 = vstr2.strip()
     if vstr2.startswith('>='):
         cmpop = operator.ge
         vstr2 = vstr2[2:]
